@@ -75,6 +75,7 @@ def cases(shard, rnd):
             yield wire.protocol_header(rnd)
 
 
+_RETAINED = common.Retained()
 _L_READINGS = set()     # readings of 'L' >= 2^63 seen in this process
 
 
@@ -252,6 +253,17 @@ def run_case(fr, rec, second=False):
                           observed=gv_, expected=repr(e)[:600])
             return
     rec.count('accepted_ok')
+    if second and kind in ('method', 'header') and \
+            rec.counters['accepted_ok'] % 3 == 0:
+        if kind == 'method':
+            _RETAINED.add(g, lambda o, sp=spec: canon.text(
+                boundary.method_values(o, sp)), 'decoded ' + spec.name, rec,
+                'earlier-decoded-frame-changed')
+        else:
+            _RETAINED.add(g, lambda o: (o.body_size, canon.text(
+                boundary.props_values(o.properties))),
+                'decoded ContentHeader', rec,
+                'earlier-decoded-frame-changed')
     if not second and kind in ('method', 'header') and \
             rec.evaluations % 2 == 0:
         # the consumer owns what it was handed: it changes the decoded
